@@ -5,6 +5,7 @@ CalculateAttributePaths, UpdateAttributesEffectiveChoice, MergeAttributes) is mo
 proved sound for content models without repeated element names; the rest of the pipeline
 is exercised end to end (real pipeline + stand-in renderer) by the oracle."""
 import dataclasses
+import os
 import json
 import random
 
@@ -524,6 +525,74 @@ def impl_subst_fields(a):
         g.close()
 
 
+# ------------------------------------------------------------------ namespaces and forms (Gen/Ns.lean)
+def gen_ns(rng, tier):
+    # bounded-exhaustive: one declaration of every shape under every form default, target namespace bound as default / prefix / not at all
+    forms = [None, "qualified", "unqualified"]
+    for tns, default, prefixes in (("urn:t", "urn:t", {}), ("urn:t", None, {"t": "urn:t"}), ("urn:t", None, {}), (None, None, {}),
+                                   ("urn:t", "urn:o", {"t": "urn:t", "o": "urn:o"}), ("urn:t", "urn:o", {"o": "urn:o"})):
+        for ef in forms:
+            for af in forms:
+                ctx = {"tns": tns, "chameleon": False, "default": default, "prefixes": prefixes, "eform": ef, "aform": af}
+                decls = []
+                for attr in (False, True):
+                    for i, f in enumerate(forms):
+                        decls.append({"attr": attr, "kind": "local", "name": "abc"[i], "form": f, "tnsattr": None})
+                    if tns and (default == tns or "t" in prefixes):
+                        decls.append({"attr": attr, "kind": "ref", "prefix": None if default == tns else "t", "name": "ha" if attr else "h"})
+                    if "o" in prefixes:
+                        decls.append({"attr": attr, "kind": "ref", "prefix": "o", "name": "ga" if attr else "g"})
+                yield {"ctx": ctx, "decls": decls}
+    for _ in range(n_cases(tier, 250, 4000)):
+        ctx = G.gen_ns_ctx(rng)
+        decls = G.gen_ns_decls(rng, ctx)
+        if decls:
+            yield {"ctx": ctx, "decls": decls}
+
+
+def classify_ns(a, out):
+    c = a["ctx"]
+    k = "chameleon" if c.get("chameleon") else ("no-tns" if not c["tns"] else ("tns-default" if c["default"] == c["tns"] else ("other-default" if c["default"] else ("tns-prefixed" if "t" in c["prefixes"] else "tns-unbound"))))
+    refs = sum(1 for d in a["decls"] if d["kind"] == "ref")
+    un = sum(1 for d in a["decls"] if d["kind"] == "ref" and d["prefix"] is None)
+    return f"{k}/refs={min(refs, 2)}/unprefixed={min(un, 1)}" + ("/err" if isinstance(out, dict) and "err" in out else "")
+
+
+def impl_ns_attrs(a):
+    try:
+        return ok(G.real_ns_attrs(a["ctx"], a["decls"]))
+    except Exception as e:  # noqa: BLE001
+        return err("HARNESS:" + type(e).__name__)
+
+
+def gen_ns_meta(rng, tier):
+    vals = [None, "", "urn:t", "urn:o"]
+    cases = [{"parent": p, "attr": x, "is_attr": ia} for p in vals for x in vals for ia in (False, True)]
+    for i in range(0, len(cases), 8):
+        yield {"cases": cases[i:i + 8]}
+
+
+def impl_ns_meta(a):
+    try:
+        return ok(G.real_ns_meta(a["cases"]))
+    except Exception as e:  # noqa: BLE001
+        return err("LEAK:" + type(e).__name__)
+
+
+def gen_ns_fields(rng, tier):
+    for i, a in enumerate(gen_ns(rng, tier)):
+        if i >= n_cases(tier, 120, 900):
+            break
+        yield a
+
+
+def impl_ns_fields(a):
+    try:
+        return ok(G.real_ns_fields(a["ctx"], a["decls"]))
+    except Exception as e:  # noqa: BLE001
+        return err("GEN:" + type(e).__name__)
+
+
 CORRS = [
     Corr("gen.xsd_sites", gen_sites, impl_sites, canon=canon_sites, describe="SchemaParser+SchemaMapper element sites and paths vs model"),
     Corr("gen.calc_paths", stage_gen("calc"), stage_impl("calc"), describe="CalculateAttributePaths.process vs model"),
@@ -561,6 +630,12 @@ CORRS = [
     Corr("gen.subst_fields", gen_subst_fields, impl_subst_fields, canon=canon_fields,
          nontrivial=lambda a, o: bool(a["subs"]),
          describe="substitution groups: whole real pipeline + stand-in renderer: list-ness / requiredness of the fields (head and members) vs model"),
+    Corr("gen.ns_attrs", gen_ns, impl_ns_attrs, classify=classify_ns,
+         describe="namespaces and forms: SchemaParser (forms, chameleon target namespace) + SchemaMapper.element_namespace for the class and every declaration vs model"),
+    Corr("gen.ns_meta", gen_ns_meta, impl_ns_meta,
+         describe="Filters.field_metadata namespace entry + XmlMetaBuilder.resolve_namespaces on constructed attrs vs model"),
+    Corr("gen.ns_fields", gen_ns_fields, impl_ns_fields, classify=classify_ns,
+         describe="namespaces and forms: whole real pipeline (imports, chameleon include) + stand-in renderer + XmlContext: namespace of the qualified name of the class and of every field vs model"),
     Corr("c02.e2e", gen_e2e, impl_e2e, spec=spec_e2e,
          describe="spec-level: schema (typed elements, unions) -> real pipeline under default / compound-field / output-only options -> strict parse of valid documents -> re-serialise; expected: faithful"),
 ]
@@ -1073,6 +1148,81 @@ def covered_subst(a, msg):
     return None
 
 
+def oracle_ns_docs(a):
+    """namespaces and forms: an instance that carries every declared child and attribute under the name the schema
+    gives it (own reference computation, document validated by lxml) parses under strict settings and comes back
+    with the same expanded names"""
+    import tempfile
+
+    from lxml import etree
+    from xsdata.formats.dataclass.context import XmlContext
+    from xsdata.formats.dataclass.parsers import XmlParser
+    from xsdata.formats.dataclass.parsers.config import ParserConfig
+    from xsdata.formats.dataclass.serializers import XmlSerializer
+
+    ctx, decls = a["ctx"], a["decls"]
+    srcs = G.ns_sources(ctx, decls)
+    entry = G.ns_entry(ctx)
+    with tempfile.TemporaryDirectory(prefix="vpns_") as d:
+        for k, v in srcs.items():
+            with open(os.path.join(d, k), "w") as f:
+                f.write(v)
+        try:
+            schema = etree.XMLSchema(etree.parse(os.path.join(d, entry[0])))
+        except etree.XMLSchemaParseError:
+            return None
+    g = CG.run_pipeline(srcs, entry=entry, **a.get("config", {}))
+    try:
+        if g.error is not None:
+            return f"generation failed: {type(g.error).__name__}: {g.error}"
+        R = g.classes()["R"]
+        ctxt = XmlContext()
+        parser = XmlParser(context=ctxt, config=ParserConfig(fail_on_unknown_properties=True, fail_on_unknown_attributes=True, fail_on_converter_warnings=True))
+        for present in a["present"]:
+            doc = G.ns_doc(ctx, decls, set(present))
+            src = etree.fromstring(doc.encode())
+            if not schema.validate(src):
+                continue
+            try:
+                obj = parser.from_string(doc, R)
+            except Exception as e:  # noqa: BLE001
+                return f"schema-valid document {doc} rejected: {type(e).__name__}: {e}"
+            out = XmlSerializer(context=ctxt).render(obj)
+            back = etree.fromstring(out.encode())
+            if back.tag != src.tag or [(c.tag, c.text) for c in back] != [(c.tag, c.text) for c in src] or dict(back.attrib) != dict(src.attrib):
+                return f"document {doc} re-serialised under other names: {out}"
+            if not schema.validate(back):
+                return f"document {doc} re-serialised as {out}, which is not schema-valid"
+    finally:
+        g.close()
+    return None
+
+
+def gen_ns_docs(rng, tier):
+    n = 0
+    for a in gen_ns(rng, "thorough"):
+        n += 1
+        if n > n_cases(tier, 200, 100000):
+            break
+        k = len(a["decls"])
+        present = [list(range(k)), [i for i in range(k) if rng.random() < 0.5], []]
+        yield {**a, "present": present, "config": {"compound_fields": True} if rng.random() < 0.2 else {}}
+
+
+def ns_heuristic_wrong(a):
+    """an unprefixed reference, no default namespace in scope, the document has its own target namespace and
+    binds no prefix to it: element_namespace takes it for a chameleon include"""
+    c = a["ctx"]
+    return bool(c["tns"]) and not c.get("chameleon") and not c["default"] and c["tns"] not in c["prefixes"].values() and any(
+        d["kind"] == "ref" and d["prefix"] is None for d in a["decls"])
+
+
+def covered_ns(a, msg):
+    if ns_heuristic_wrong(a) and ("Unknown property" in msg or "Unknown attribute" in msg):
+        return "C02-unprefixed-ref-unbound-target-namespace"
+    return None
+
+
 def covered_groups(a, msg):
     return None  # element names are distinct inside the group: the duplicate-site finding cannot apply
 
@@ -1106,6 +1256,7 @@ ORACLES = [
     Oracle("c02.attr_docs", gen_attr_docs, oracle_attr_docs),
     Oracle("c02.derived_docs", gen_derived, oracle_derived),
     Oracle("c02.subst_docs", gen_subst_docs, oracle_docs, covered=covered_subst),
+    Oracle("c02.ns_docs", gen_ns_docs, oracle_ns_docs, covered=covered_ns),
 ]
 
 
@@ -1133,8 +1284,20 @@ def finding_subst_order():
     return (still, msg or "the document now comes back in the same order")
 
 
+NS_HEURISTIC_WITNESS = {
+    "ctx": {"tns": "urn:t", "chameleon": False, "default": None, "prefixes": {}, "eform": None, "aform": None},
+    "decls": [{"attr": False, "kind": "ref", "prefix": None, "name": "n"}], "present": [[0]],
+}
+
+
+def finding_ns_heuristic():
+    msg = oracle_ns_docs(NS_HEURISTIC_WITNESS)
+    return (msg is not None and "rejected" in msg, msg or "the document now parses")
+
+
 FINDINGS = {
     "C02-duplicate-name-sites": finding_duplicate_sites,
+    "C02-unprefixed-ref-unbound-target-namespace": finding_ns_heuristic,
     "C02-substitution-order-without-compound": finding_subst_order,
 }
 
